@@ -302,6 +302,13 @@ func (ex *Expect) evalProc(ni int) {
 				lin.Tags[tk] = tv
 			}
 		}
+		if n.Head > 0 {
+			for k := range inData {
+				if len(inData[k]) > n.Head {
+					inData[k] = inData[k][:n.Head]
+				}
+			}
+		}
 		for k, p := range n.Params {
 			v := pvals[k][i]
 			t.Params[p.Name] = v
